@@ -176,6 +176,24 @@ func c09(c *Ctx) {
 		}
 	}
 	ops = append(ops, POp{Op: "req", Method: "Completion", URI: uA, Line: uint32(multiPos[0]), Char: uint32(multiPos[1]), Answer: multiAns, Detail: "\x1f\x1f\x1f"})
+	// answers with several locations, plain Go files and generated files in either order: every location is
+	// translated on its own (or left alone), wherever it stands in the list
+	nBeforeLists := len(ops)
+	type listCase struct {
+		method string
+		locs   []PLoc
+	}
+	var listCases []listCase
+	for _, m := range []string{"Definition", "TypeDefinition", "Implementation", "References"} {
+		for _, order := range [][]int{{3, 0, 2}, {0, 3, 2, 6}, {2, 3, 3, 0}, {3}} {
+			var locs []PLoc
+			for _, k := range order {
+				locs = append(locs, answers[k].loc)
+			}
+			listCases = append(listCases, listCase{m, locs})
+			ops = append(ops, POp{Op: "req", Method: m, URI: uA, Line: uint32(multiPos[0]), Char: uint32(multiPos[1]), Answer: locs})
+		}
+	}
 	// the same questions after an edit that moves template text but leaves the generated code byte-identical
 	// (a blank line and a `-#` comment above the first dynamic line): the map in force must be the new one
 	docA2 := strings.Replace(docA, "\t%p= s\n", "\n\t-# note\n\t%p= s\n", 1)
@@ -217,10 +235,38 @@ func c09(c *Ctx) {
 				map[string]any{"answers": multiAns, "events": rawEvents(log[nBeforeMulti]), "docA": docA})
 		}
 	}
+	// oracle for the location lists
+	for k, lc := range listCases {
+		reply := ""
+		for _, ev := range log[nBeforeLists+k] {
+			if ev.Kind == "R" {
+				reply = strings.Join(ev.F, " ")
+			}
+		}
+		var want []string
+		for _, l := range lc.locs {
+			switch {
+			case l.URI == uA+".go":
+				want = append(want, uA+"@"+prng(tA.mapRangeBack(l.R)))
+			case l.URI == uB+".go":
+				want = append(want, uB+"@"+prng(tB.mapRangeBack(l.R)))
+			case l.URI == uC+".go":
+				want = append(want, uC+"@"+prng(tC.mapRangeBack(l.R)))
+			default:
+				want = append(want, l.URI+"@"+prng(l.R))
+			}
+		}
+		c.Rep.OracleCases++
+		c.distinct(fmt.Sprintf("%s/list/%d", lc.method, k))
+		if w := lc.method + " [" + strings.Join(want, ",") + "]"; reply != w {
+			c.fail("C09/"+lc.method+"/location-list", lc.method+" with "+fmt.Sprint(len(lc.locs))+" locations (plain Go files and generated files mixed): reply "+reply+", expected "+w,
+				map[string]any{"answers": lc.locs, "events": rawEvents(log[nBeforeLists+k]), "docA": docA})
+		}
+	}
 	for i, info := range infos {
 		evs := log[i+nOpen]
 		if i >= nMain {
-			evs = log[i+nOpen+2] // the multi-item completion and the change op precede the second round
+			evs = log[i+nOpen+2+len(listCases)] // the multi-item completion, the location lists and the change op precede the second round
 			tA = tA2
 		}
 		c.Rep.OracleCases++
